@@ -73,6 +73,7 @@ static void *loop(void *) {
   std::string binName = "m.bin";
   while (std::getline(std::cin, line)) {
     if (line.empty()) continue;
+    alarm(60);   // watchdog (SIGALRM kills the process; the runner reports `fault hang`)
     std::string src = unhex(line);
     std::string r;
     r += "I=" + stage(xcmp::DriverAction::EMIT_INTERMEDIATE_INSTS, src, binName);
